@@ -434,10 +434,24 @@ theorem map_lowerC_of_litChar {l : List Char} (h : ∀ c ∈ l, LitChar c) : l.m
   | cons x xs ih =>
     rw [List.map_cons, (h x List.mem_cons_self).lower, ih (fun c hc => h c (List.mem_cons_of_mem _ hc))]
 
+/-- `padEmpty` on an optional sign followed by digits: a `0` is supplied exactly when no digit is there -/
+theorem padEmpty_sign_digits {sg ds : List Char} (hs : SignStr sg) (hd : Digits ds) :
+    ∃ ds', Digits ds' ∧ ds' ≠ [] ∧ padEmpty (sg ++ ds) = sg ++ ds' ∧ natOfDigits ds' = natOfDigits ds := by
+  cases ds with
+  | nil =>
+    refine ⟨['0'], by intro c hc; simp at hc; rw [hc]; decide, by simp, ?_, by decide⟩
+    rcases hs with rfl | rfl | rfl <;> simp [padEmpty]
+  | cons c r =>
+    have hc : isDigitC c = true := hd c List.mem_cons_self
+    have h1 : c ≠ '+' := by rintro rfl; revert hc; decide
+    have h2 : c ≠ '-' := by rintro rfl; revert hc; decide
+    refine ⟨c :: r, hd, by simp, ?_, rfl⟩
+    rcases hs with rfl | rfl | rfl <;> simp [padEmpty, h1, h2]
+
 /-- the mantissa branch of the parser on `sg ip [. fp]` -/
 theorem manExpOfMantissa_mant {sg ip : List Char} {dot : Bool} {fp : List Char} (e : Int)
     (hs : SignStr sg) (hip : Digits ip) (hfp : Digits fp) (hnd : dot = false → fp = [])
-    (hm : ip ++ rstripL (· == '0') fp ≠ []) :
+    (hne : ip ≠ [] ∨ fp ≠ []) :
     manExpOfMantissa (sg ++ (ip ++ dotStr dot fp)) e 0 =
       .ok (signVal sg * (natOfDigits (ip ++ rstripL (· == '0') fp) : Int),
            e - ((rstripL (· == '0') fp).length : Int)) := by
@@ -452,15 +466,17 @@ theorem manExpOfMantissa_mant {sg ip : List Char} {dot : Bool} {fp : List Char} 
         rcases List.mem_append.mp hmem with h | h
         · exact hs.not_mem (by decide) (by decide) h
         · exact hip.not_mem hdotnd h
+    obtain ⟨ds', hd', hne', hpad, hval⟩ := padEmpty_sign_digits hs (hip.append (hfp.rstrip (· == '0')))
     unfold manExpOfMantissa
     rw [hsplit]
     simp only [List.append_assoc]
-    rw [pyInt_sign_digits hs (hip.append (hfp.rstrip _)) hm]
+    rw [hpad, pyInt_sign_digits hs hd' hne', hval]
   | false =>
     have hfp0 : fp = [] := hnd rfl
     subst hfp0
+    have hm : ip ≠ [] := by rcases hne with h | h; exact h; exact absurd rfl h
     have hr : rstripL (· == '0') ([] : List Char) = [] := rfl
-    rw [hr] at hm ⊢
+    rw [hr]
     have hsplit : splitOnC '.' (sg ++ (ip ++ dotStr false [])) = [sg ++ (ip ++ dotStr false [])] := by
       apply splitOnC_of_not_mem
       simp only [dotStr, Bool.false_eq_true, if_false, List.append_nil]
@@ -470,25 +486,18 @@ theorem manExpOfMantissa_mant {sg ip : List Char} {dot : Bool} {fp : List Char} 
       · exact hip.not_mem hdotnd h
     unfold manExpOfMantissa
     rw [hsplit]
-    simp only [dotStr, Bool.false_eq_true, if_false, List.append_nil] at hm ⊢
+    simp only [dotStr, Bool.false_eq_true, if_false, List.append_nil]
     rw [pyInt_sign_digits hs hip hm]
     simp
 
-/-- The parser on a well-formed lower-case literal, without digit-count limit. The side condition
-excludes exactly the literals `.0…0` (empty integer part, all-zero fraction). -/
-theorem strToManExp_litL {sg ip : List Char} {dot : Bool} {fp : List Char}
-    {eo : Option (List Char × List Char)} (h : LitOK sg ip dot fp eo)
-    (hm : ip ++ rstripL (· == '0') fp ≠ []) :
-    strToManExp (litL sg ip dot fp eo) 0 =
+/-- The split-and-convert part of the parser on a well-formed lower-case literal (no digit-count limit). -/
+theorem strToManExpCore_litL {sg ip : List Char} {dot : Bool} {fp : List Char}
+    {eo : Option (List Char × List Char)} (h : LitOK sg ip dot fp eo) :
+    strToManExpCore (litL sg ip dot fp eo) 0 =
       .ok (signVal sg * (natOfDigits (ip ++ rstripL (· == '0') fp) : Int),
            expVal eo - ((rstripL (· == '0') fp).length : Int)) := by
-  have hall := litL_litChar h
   have hedig : isDigitC 'e' = false := by decide
-  unfold strToManExp
-  simp only [map_lowerC_of_litChar hall]
-  rw [rstripL_eq_self_of_forall (fun c hc => by
-    have := isDigitC_lowerC_ne_l (hall c hc); rwa [(hall c hc).lower] at this)]
-  simp only [floatOK_litL h, Bool.not_true, Bool.false_eq_true, if_false]
+  unfold strToManExpCore
   cases eo with
   | none =>
     have hl : litL sg ip dot fp none = sg ++ (ip ++ dotStr dot fp) := by simp [litL, expStr]
@@ -509,7 +518,7 @@ theorem strToManExp_litL {sg ip : List Char} {dot : Bool} {fp : List Char}
             · exact h.fpd.not_mem hedig hx
     rw [hsplit]
     simp only [hl, expVal]
-    exact manExpOfMantissa_mant 0 h.sign h.ipd h.fpd h.nodot hm
+    exact manExpOfMantissa_mant 0 h.sign h.ipd h.fpd h.nodot h.nonempty
   | some p =>
     obtain ⟨es, ed⟩ := p
     obtain ⟨hes, hed, hne⟩ := h.exp es ed rfl
@@ -537,7 +546,102 @@ theorem strToManExp_litL {sg ip : List Char} {dot : Bool} {fp : List Char}
               · exact h.fpd.not_mem hedig hx
     rw [hsplit]
     simp only [pyInt_sign_digits hes hed hne, expVal]
-    exact manExpOfMantissa_mant _ h.sign h.ipd h.fpd h.nodot hm
+    exact manExpOfMantissa_mant _ h.sign h.ipd h.fpd h.nodot h.nonempty
+
+/-! ### digit group separators -/
+
+theorem toNat_lowerC_upper {c : Char} (h : 65 ≤ c.toNat ∧ c.toNat ≤ 90) :
+    (lowerC c).toNat = c.toNat + 32 := by
+  unfold lowerC
+  rw [if_pos h, Char.toNat_ofNat, if_pos]; left; omega
+
+theorem lowerC_eq_underscore (c : Char) : lowerC c = '_' ↔ c = '_' := by
+  by_cases h : 65 ≤ c.toNat ∧ c.toNat ≤ 90
+  · have h1 := toNat_lowerC_upper h
+    constructor
+    · intro he; rw [he] at h1; have : ('_' : Char).toNat = 95 := by decide
+      omega
+    · rintro rfl; exact absurd h (by decide)
+  · unfold lowerC; rw [if_neg h]
+
+theorem isDigitC_lowerC (c : Char) : isDigitC (lowerC c) = isDigitC c := by
+  by_cases h : 65 ≤ c.toNat ∧ c.toNat ≤ 90
+  · have h1 := toNat_lowerC_upper h
+    have a : isDigitC (lowerC c) = false := by
+      rw [Bool.eq_false_iff, ne_eq, isDigitC_iff]; omega
+    have b : isDigitC c = false := by
+      rw [Bool.eq_false_iff, ne_eq, isDigitC_iff]; omega
+    rw [a, b]
+  · unfold lowerC; rw [if_neg h]
+
+theorem bne_lowerC_underscore (c : Char) : (lowerC c != '_') = (c != '_') := by
+  by_cases h : c = '_'
+  · subst h; decide
+  · have : lowerC c ≠ '_' := fun e => h ((lowerC_eq_underscore c).mp e)
+    rw [bne_iff_ne.mpr this, bne_iff_ne.mpr h]
+
+theorem underscoresOK_map_lower (prev : Char) (l : List Char) :
+    underscoresOK (lowerC prev) (l.map lowerC) = underscoresOK prev l := by
+  induction l generalizing prev with
+  | nil => exact bne_lowerC_underscore prev
+  | cons x xs ih =>
+    simp only [List.map_cons, underscoresOK, ih, isDigitC_lowerC, bne_lowerC_underscore,
+      lowerC_eq_underscore]
+
+theorem filter_map_lower (l : List Char) :
+    (l.map lowerC).filter (· != '_') = (l.filter (· != '_')).map lowerC := by
+  rw [List.filter_map]
+  congr 1
+  apply List.filter_congr
+  intro c _
+  simp only [Function.comp, bne_lowerC_underscore]
+
+/-- The whole parser on a string that is, after removal of the separators and lower-casing, a
+well-formed literal, and whose separators are placed as `float()` demands. -/
+theorem strToManExp_of_shape {l : List Char} (hus : underscoresOK '\x00' l = true)
+    {sg ip : List Char} {dot : Bool} {fp : List Char} {eo : Option (List Char × List Char)}
+    (h : LitOK sg ip dot fp eo) (hmap : (l.filter (· != '_')).map lowerC = litL sg ip dot fp eo) :
+    strToManExp l 0 =
+      .ok (signVal sg * (natOfDigits (ip ++ rstripL (· == '0') fp) : Int),
+           expVal eo - ((rstripL (· == '0') fp).length : Int)) := by
+  have hall := litL_litChar h
+  have hfil : (l.map lowerC).filter (· != '_') = litL sg ip dot fp eo := by rw [filter_map_lower, hmap]
+  have hchars : ∀ c ∈ l.map lowerC, c = '_' ∨ LitChar c := by
+    intro c hc
+    by_cases hu : c = '_'
+    · exact Or.inl hu
+    · right
+      apply hall
+      rw [← hfil]
+      exact List.mem_filter.mpr ⟨hc, by simpa using hu⟩
+  have hnl : ∀ c ∈ l.map lowerC, (c == 'l') = false := by
+    intro c hc
+    rcases hchars c hc with rfl | hl
+    · decide
+    · have := isDigitC_lowerC_ne_l hl; rwa [hl.lower] at this
+  have hnsp : ∀ c ∈ l.map lowerC, isSpaceNum c = false := by
+    intro c hc
+    rcases hchars c hc with rfl | hl
+    · decide
+    · exact hl.not_space
+  have hascii : isAscii (l.map lowerC) = true := by
+    unfold isAscii
+    simp only [List.all_eq_true, decide_eq_true_eq]
+    intro c hc
+    rcases hchars c hc with rfl | hl
+    · decide
+    · exact hl.ascii
+  have hus' : underscoresOK '\x00' (l.map lowerC) = true := by
+    have := underscoresOK_map_lower '\x00' l
+    rw [show lowerC '\x00' = '\x00' by decide] at this
+    rw [this, hus]
+  have hfloat : floatOK (l.map lowerC) = true := by
+    unfold floatOK
+    rw [hascii, stripL_eq_self_of_forall hnsp]
+    simp only [hus', hfil, plainFloatOK_litL h, Bool.and_self]
+  unfold strToManExp
+  simp only [rstripL_eq_self_of_forall hnl, hfloat, Bool.not_true, Bool.false_eq_true, if_false, hfil]
+  exact strToManExpCore_litL h
 
 
 /-! ### the value of a decimal literal -/
@@ -564,7 +668,12 @@ def decValueL (l : List Char) : Option ℚ :=
       some (signZ l * mant * (10 : ℚ) ^ (signZ r * (natOfDigits (dropSign r) : ℤ)))
     else none
 
-def decValue (s : String) : Option ℚ := decValueL s.toList
+/-- The value of a decimal literal in the grammar of Python's `float()`: digit group separators `_`
+(each one between two digits) are dropped, then the plain literal is read by `decValueL`. -/
+def decValueU (l : List Char) : Option ℚ :=
+  if underscoresOK '\x00' l = true then decValueL (l.filter (· != '_')) else none
+
+def decValue (s : String) : Option ℚ := decValueU s.toList
 
 /-- an optional sign in front of `l`, split off -/
 theorem sign_split (l : List Char) :
@@ -692,36 +801,57 @@ theorem strToManExp_lower (x : List Char) (lim : Nat) :
     rw [List.map_map]; apply List.map_congr_left; intro c _; exact hid c
   rw [this]
 
-/-- **The parser computes the value of the literal.** For every string with a `decValue`, except those
-whose mantissa has no digit before the point and only zeros after it (`.0`, `-.00e5`, …), the model of
-`str_to_man_exp` (without digit-count limit) returns `(man, exp)` with `man · 10^exp` equal to that value. -/
-theorem strToManExp_value {l : List Char} {v : ℚ} (h : decValueL l = some v)
-    (hnd : v ≠ 0 ∨ ∃ c r, dropSign l = c :: r ∧ isDigitC c = true) :
+/-- **The parser computes the value of the literal.** For every string with a `decValue` (including
+separators, `.0`-style mantissas, either case of the exponent marker) the model of `str_to_man_exp`
+(without digit-count limit) returns `(man, exp)` with `man · 10^exp` equal to that value. -/
+theorem strToManExp_value {l : List Char} {v : ℚ} (h : decValueU l = some v) :
     ∃ man exp, strToManExp l 0 = .ok (man, exp) ∧ (man : ℚ) * (10 : ℚ) ^ exp = v := by
-  obtain ⟨sg, ip, dot, fp, eo, hok, hmap, hbd, hv⟩ := decValueL_shape h
-  obtain ⟨k, hk1, hk2⟩ := natOfDigits_rstrip_zeros fp
-  set fp' := rstripL (· == '0') fp with hfp'
-  have hm : ip ++ fp' ≠ [] := by
-    intro hnil
-    obtain ⟨hi, hf⟩ := List.append_eq_nil_iff.mp hnil
-    rcases hnd with hv0 | ⟨c, r, hcr, hc⟩
-    · apply hv0
-      rw [hv, hi, hk1, hf]
-      simp [natOfDigits]
-    · rw [hbd, hi, List.nil_append] at hcr
-      have := List.head?_dropWhile_not isDigitC (dropSign l)
-      rw [hcr] at this
-      simp only [List.head?_cons] at this
-      rw [hc] at this
-      exact Bool.noConfusion this
-  refine ⟨signVal sg * (natOfDigits (ip ++ fp') : Int), expVal eo - (fp'.length : Int), ?_, ?_⟩
-  · rw [← strToManExp_lower, hmap]
-    exact strToManExp_litL hok hm
-  · rw [hv, hk1, hk2]
+  unfold decValueU at h
+  by_cases hus : underscoresOK '\x00' l = true
+  · rw [if_pos hus] at h
+    obtain ⟨sg, ip, dot, fp, eo, hok, hmap, -, hv⟩ := decValueL_shape h
+    obtain ⟨k, hk1, hk2⟩ := natOfDigits_rstrip_zeros fp
+    set fp' := rstripL (· == '0') fp with hfp'
+    refine ⟨signVal sg * (natOfDigits (ip ++ fp') : Int), expVal eo - (fp'.length : Int),
+      strToManExp_of_shape hus hok hmap, ?_⟩
+    rw [hv, hk1, hk2]
     have h10 : (10 : ℚ) ≠ 0 := by norm_num
     rw [zpow_sub₀ h10, zpow_natCast, natOfDigits_append]
     push_cast
     rw [pow_add]
     field_simp
+  · rw [if_neg hus] at h; cases h
+
+/-- the characters of a string with a value: separators and literal characters (after lower-casing) -/
+theorem decValueU_chars {l : List Char} {v : ℚ} (h : decValueU l = some v) :
+    ∀ c ∈ l.map lowerC, c = '_' ∨ LitChar c := by
+  unfold decValueU at h
+  by_cases hus : underscoresOK '\x00' l = true
+  · rw [if_pos hus] at h
+    obtain ⟨sg, ip, dot, fp, eo, hok, hmap, -, -⟩ := decValueL_shape h
+    have hall := litL_litChar hok
+    intro c hc
+    by_cases hu : c = '_'
+    · exact Or.inl hu
+    · right
+      apply hall
+      rw [← hmap, ← filter_map_lower]
+      exact List.mem_filter.mpr ⟨hc, by simpa using hu⟩
+  · rw [if_neg hus] at h; cases h
+
+/-- a plain literal (no separators) has the same value under both readings -/
+theorem decValueU_of_decValueL {l : List Char} {v : ℚ} (h : decValueL l = some v) : decValueU l = some v := by
+  obtain ⟨sg, ip, dot, fp, eo, hok, hmap, -, -⟩ := decValueL_shape h
+  have hall := litL_litChar hok
+  have hno : ∀ c ∈ l, c ≠ '_' := by
+    intro c hc hu
+    have : lowerC c ∈ l.map lowerC := List.mem_map_of_mem hc
+    rw [hmap, hu, (lowerC_eq_underscore '_').mpr rfl] at this
+    exact (hall _ this).ne_underscore rfl
+  unfold decValueU
+  rw [if_pos (underscoresOK_of_none (by decide) hno)]
+  have : l.filter (· != '_') = l := by
+    rw [List.filter_eq_self]; intro c hc; simpa using hno c hc
+  rw [this, h]
 
 end Mp
